@@ -104,7 +104,7 @@ Theorem C12_accepted_request_puts_chain_running : forall d t skip d' b,
     (forall w, In w (chain_wfs l) -> wstate d' w = Some RUNNING /\ wacc d' w = Some false) /\
     (forall pt, In pt (chain_tasks l) -> pt <> t -> tstate d' pt = Some RUNNING) /\
     (skip = true -> tstate d' t = Some SKIPPED) /\
-    (skip = false -> (t_state tr = ERROR \/ t_state tr = CANCELLED) -> ~ In t (chain_tasks l) -> tstate d' t = Some RUNNING) /\
+    (skip = false -> t_state tr = ERROR -> ~ In t (chain_tasks l) -> tstate d' t = Some RUNNING) /\
     same_ptrs d d'.
 Proof. exact rerun_accepted_chain_running. Qed.
 Print Assumptions C12_accepted_request_puts_chain_running.
